@@ -231,6 +231,48 @@ func scenC04(r *Run) {
 			return
 		}
 	}
+	// concurrent phase: several plain URLs on both hosts fetched at the same time; every one of
+	// them must be requested exactly once, on its own host, with its own target
+	if t.Chance(1, 2) {
+		nc := 2 + t.Draw(5)
+		want := map[string]int{}
+		from := len(w.Conns)
+		for i := 0; i < nc; i++ {
+			host := []string{"h1.example", "h2.example"}[t.Draw(2)]
+			target := fmt.Sprintf("/conc/%d?tok=%d", i, 1000+t.Draw(9000))
+			u := "https://" + host + target
+			want[host+"|"+target]++
+			api := t.Draw(2)
+			r.Spawn(fmt.Sprintf("c%d", i), func() {
+				if api == 0 {
+					pu, _ := url.Parse(u)
+					jtp.Get(pu, AcceptAP, []string{"application/activity+json", "application/ld+json", "application/json"}, 20)
+				} else {
+					client.FetchURL(mustURL(u))
+				}
+			})
+		}
+		r.Drive(r.AllTasksDone, hugeHorizon, 40000)
+		got := map[string]int{}
+		for _, cr := range w.Conns[from:] {
+			if cr.Outcome == "connected" && cr.ReqDone {
+				got[strings.ToLower(cr.Host)+"|"+cr.Target]++
+			}
+		}
+		for k, n := range want {
+			if got[k] != n {
+				r.Violate("C04", "concurrent", "request-of-one-fetch-sent-for-another", fmt.Sprintf("%d concurrent fetches: %s was requested %d times (expected %d); all requests seen: %v", nc, k, got[k], n, got))
+				break
+			}
+		}
+		for k := range got {
+			if want[k] == 0 {
+				r.Violate("C04", "concurrent", "request-of-one-fetch-sent-for-another", fmt.Sprintf("%d concurrent fetches: unexpected request %s; wanted %v", nc, k, want))
+				break
+			}
+		}
+		r.S.Probe("c04_concurrent_phase")
+	}
 	// judge connections per probe
 	for _, p := range probes {
 		conns := w.Conns[p.from:p.to]
@@ -375,4 +417,12 @@ func removeDotSegments(target string) string {
 		res = "/" + res
 	}
 	return res + q
+}
+
+func mustURL(u string) *url.URL {
+	p, err := url.Parse(u)
+	if err != nil {
+		panic(err)
+	}
+	return p
 }
